@@ -35,7 +35,7 @@ COMPONENTS = {
     "stub": ["OS scheduler (replaced by the baton scheduler)", "caller threads' programs", "tagged converter functions"],
 }
 TIERS = {
-    "quick": {"runs": 3200, "chunk": 40, "selftest": 32, "minimise_s": 60},
+    "quick": {"runs": 6000, "chunk": 40, "selftest": 32, "minimise_s": 60},
     "thorough": {"budget_s": 900, "chunk": 100, "selftest": 256, "minimise_s": 120},
 }
 PROBES = ["two_threads_in_anchor", "switch_in_resolve_forward_refs", "switch_in_registry", "switch_between_bytecodes", "lock_contended",
@@ -51,7 +51,7 @@ SPELL_MANY = ["List['B']", "Dict[str, 'B']", "List[Optional['B']]", "Tuple['B', 
 def w1_source(p):
     """Module-level classes; B is referenced by A before B exists -> refs pending until the first parse."""
     lines = ["from utype import Schema, Field, Options", "import utype",
-             "from typing import List, Optional, Dict, Union, Tuple", ""]
+             "from typing import List, Optional, Dict, Union, Tuple, Iterator", ""]
     a = ["class A(Schema):"]
     if p.get("collect"):
         a.append("    __options__ = Options(collect_errors=True)")
@@ -62,7 +62,8 @@ def w1_source(p):
         a.append("    pb: 'B' = Field(required=False, description='with field config')")
     b = ["class B(Schema):", "    y: int = Field(ge=0)", "    a: Optional['A'] = None", "",
          "class Q(Schema):", "    q: int = 0", "    m: Optional['Missing'] = None      # a name that never exists: every first use fails"]
-    f = ["@utype.parse", "def f(a: 'A', n: int = 0) -> 'B':", "    return {'y': a.x + n}"]
+    f = ["@utype.parse", "def f(a: 'A', n: int = 0) -> 'B':", "    return {'y': a.x + n}", "",
+         "@utype.parse", "def gen(n: int = 1) -> Iterator['B']:", "    for i in range(n):", "        yield {'y': i}"]
     if p.get("b_ann") == "Optional[B]":
         order = [b, a, f]   # direct reference: B must exist first (control scenario, nothing pending in A)
         b[2] = "    a: Optional['A'] = None"
@@ -185,6 +186,8 @@ def run_op(mod, op, params):
         return cls(**data)
     if k == "call":
         return mod.f(*op.get("args", []), **op.get("kwargs", {}))
+    if k == "gen":
+        return list(mod.gen(op["n"]))
     if k == "transform":
         return utype.type_transform(op["value"], getattr(mod, op["cls"]))
     if k == "local":
@@ -267,6 +270,11 @@ def _gen_ops_w1(rng, params, n):
     ops = []
     for _ in range(n):
         r = rng.random()
+        if r < 0.05:
+            # the yield type of a generator function is one more lazily rewritten piece of shared state
+            ops.append({"op": "gen", "n": rng.choice([1, 2])})
+            continue
+        r = rng.random()
         if r < 0.08:
             # a first use that fails (unresolvable name): it must not take anything with it that others need
             ops.append({"op": "init", "cls": "Q", "data": {"q": 1}})
@@ -301,6 +309,10 @@ def generate(rng, tier):
              "collect": rng.random() < 0.3, "constrained": rng.random() < 0.4, "func_first": rng.random() < 0.4}
         plan["params"] = p
         plan["threads"] = [_gen_ops_w1(rng, p, c) for c in counts]
+        if sc == "W1" and rng.random() < 0.15:
+            # every thread makes the first call of the same generator function
+            for ops_ in plan["threads"]:
+                ops_[0] = {"op": "gen", "n": rng.choice([1, 2])}
         if sc == "W6":
             # one thread declares (and maybe uses) new classes while the others make their first parses
             t = rng.randrange(nthreads)
